@@ -171,12 +171,16 @@ Init_Dates ==
   /\ cfg \in CfgsEmpty
   /\ dirs = BaseDirs /\ live = {[r |-> "R", d |-> "d", n |-> "a", o |-> 1]}
   /\ tex = {"home", "t2:V1", "c:V1"}
-  /\ \E d1 \in DatePool, d2 \in (IF GenLevel >= 2 THEN DatePool ELSE {4, 7, NoDate}), d3 \in (IF GenLevel >= 2 THEN {1, 7, 10} ELSE {7}) :
-       items = {[t |-> "home", o |-> 5, r |-> "R", d |-> "d", n |-> "a", date |-> d1],
-                [t |-> "t2:V1", o |-> 6, r |-> "V1", d |-> "d", n |-> "b", date |-> d2],
-                [t |-> "home", o |-> 7, r |-> "R", d |-> "top", n |-> "a", date |-> d3],
-                [t |-> "c:V1", o |-> 8, r |-> "V1", d |-> "top", n |-> "a", date |-> d1]}
-  /\ orph \in {{}, {[t |-> "home", o |-> 9], [t |-> "t2:V1", o |-> 10]}}
+  \* skel: one of the trash directories exists but holds nothing (the skeleton a put + purge leaves): it must stay as it is
+  \* under --dry-run and after a negative answer
+  /\ \E d1 \in DatePool, d2 \in (IF GenLevel >= 2 THEN DatePool ELSE {4, 7, NoDate}), d3 \in (IF GenLevel >= 2 THEN {1, 7, 10} ELSE {7}),
+        skel \in {"none", "t2:V1", "c:V1"}, wo \in BOOLEAN :
+       /\ items = {i \in {[t |-> "home", o |-> 5, r |-> "R", d |-> "d", n |-> "a", date |-> d1],
+                            [t |-> "t2:V1", o |-> 6, r |-> "V1", d |-> "d", n |-> "b", date |-> d2],
+                            [t |-> "home", o |-> 7, r |-> "R", d |-> "top", n |-> "a", date |-> d3],
+                            [t |-> "c:V1", o |-> 8, r |-> "V1", d |-> "top", n |-> "a", date |-> d1]} : i.t # skel}
+       /\ (skel # "none" => d2 = 7)
+       /\ orph = IF wo THEN {x \in {[t |-> "home", o |-> 9], [t |-> "t2:V1", o |-> 10]} : x.t # skel} ELSE {}
   /\ strays \in {{}, {[t |-> "home", id |-> 1, r |-> "R", d |-> "d", n |-> "b", date |-> 4]}}
   /\ junk = {}
   /\ clock = 10 /\ purged = {} /\ out = [cmd |-> "init"]
